@@ -6,6 +6,7 @@ import (
 	"fmt"
 	"io"
 	"os"
+	"runtime"
 	"strings"
 	"time"
 
@@ -164,6 +165,13 @@ func Disturb(kind int) {
 	}
 	lg := slog.New("disturb").SetWriter(io.Discard).SetErrorWriter(io.Discard).SetLevel(slog.AlwaysLevel)
 	ctx := context.Background()
+	if kind == 7 {
+		// two garbage collections: the pools are emptied (their victim caches too), so the record under test is
+		// printed by a freshly made context - and whatever only lived in a pooled object is gone
+		runtime.GC()
+		runtime.GC()
+		return
+	}
 	switch kind % 6 {
 	case 1: // coloured, multi-line message with a trailing line break, a group and an error
 		lg.SetColorMode(true)
